@@ -8,6 +8,7 @@
 #include "c14_faults.hh"
 #include "c14_meta.hh"
 #include "c14_threads.hh"
+#include "c14_long.hh"
 
 int main(int argc, char** argv) {
   vf::Ctx& c = vf::init(argc, argv);
@@ -42,6 +43,12 @@ int main(int argc, char** argv) {
   if (want("paths")) part_paths(r8);
   if (want("scoped_fd")) part_scoped_fd();
   if (want("poll")) part_poll();
+  if (want("polllong")) part_poll_long();
+  if (want("listdirladder")) part_listdir_ladder();
+  if (want("unlinkladder")) part_unlink_ladder();
+  if (want("scopedfdmany")) part_scoped_fd_many();
+  if (want("fgetslines")) part_fgets_manylines();
+  if (want("historieslong")) part_stream_histories_long();
 
   // scratch cleanup (harness-side)
   {
